@@ -31,7 +31,7 @@ ASSUMPTIONS = ['open zones of the reference matcher (null ids inside a batch arr
                'a body that is not JSON may surface as JSONDecodeError (a ValueError), Appendix F.2']
 
 FAULT_KINDS = ['none', 'permute', 'omit', 'dup', 'extra', 'id_other', 'id_twin', 'id_null', 'id_foreign', 'batch_error',
-               'member', 'error_member', 'not_json', 'truncate', 'unwrap', 'empty_array']
+               'member', 'error_member', 'not_json', 'truncate', 'unwrap', 'empty_array', 'null_error_extra']
 ID_POOL: List[Any] = [1, '1', 2, 'abc', 0, '', -1, 'x', 10, '10']
 
 
@@ -70,6 +70,10 @@ def _draw_fault(ch: Any, kind: str, n_calls: int) -> Optional[Tuple[Any, ...]]:
         return ('unwrap',)
     if kind == 'empty_array':
         return ('replace', '[]')
+    if kind == 'null_error_extra':
+        # what a server adds for a batch element it could not even identify
+        el = {'jsonrpc': '2.0', 'id': None, 'error': {'code': -32600, 'message': 'Invalid Request'}}
+        return ('extra', el, ch.draw(n_calls + 1, 'fault.pos'))
     raise ValueError(kind)
 
 
@@ -150,6 +154,7 @@ def fam_batch(w: World) -> None:
     w.probe('verdict.' + v)
     ctx['verdict'] = v
     if v == 'open':
+        _check_null_id_error_not_lost(w, sent_doc, reply_text, strict, outcome, via, ctx)
         return
     if v in ('decode', 'deser', 'identity'):
         if outcome[0] != 'raise' or not _verdict_matches(v, _classify(outcome[1])):
@@ -174,6 +179,38 @@ def fam_batch(w: World) -> None:
                       f'{_describe(outcome)}', **ctx)
         return
     _check_accepted(w, exp, outcome, reqs, via, ctx)
+
+
+def _check_null_id_error_not_lost(w: World, sent_doc: Any, reply_text: Any, strict: bool, outcome: Tuple[Any, ...],
+                                  via: str, ctx: Dict[str, Any]) -> None:
+    """Open zone, narrowed: a reply that answers every call and additionally carries null-id ERROR objects.  Where such
+    an entry is attributed is open, but a server error must not silently disappear: the results cannot be read as a
+    clean tuple."""
+    ok, doc = R.strict_loads(reply_text) if reply_text is not None else (False, None)
+    if not ok or not isinstance(doc, list) or any(R.valid_response(el) for el in doc):
+        return
+    null_errors = [el for el in doc if el.get('id') is None and 'error' in el]
+    rest = [el for el in doc if el.get('id') is not None]
+    if not null_errors or len(null_errors) + len(rest) != len(doc):
+        return
+    if RC.match_batch(sent_doc, json.dumps(rest), strict)['verdict'] != 'accept':
+        return
+    w.probe('null_id_error_next_to_full_reply')
+    if outcome[0] == 'raise':
+        return   # refused or raised: the error did not get lost
+    if via == 'send':
+        resp = outcome[1]
+        try:
+            resp.result
+            lost = True
+        except JsonRpcError:
+            lost = False
+        if lost or not resp.has_error:
+            w.violate('C08.error_lost', f'the reply carries the server error {null_errors[0]["error"]} (id null) next to '
+                      f'the responses of all calls, but the results read as a clean tuple', **ctx)
+    else:
+        w.violate('C08.error_lost', f'the reply carries the server error {null_errors[0]["error"]} (id null) next to the '
+                  f'responses of all calls, but batch.call() returned {outcome[1]!r}', **ctx)
 
 
 def _check_accepted(w: World, exp: Dict[str, Any], outcome: Tuple[Any, ...], reqs: List[Any], via: str,
@@ -353,6 +390,46 @@ def fam_reuse(w: World) -> None:
             return
 
 
+def fam_inline(w: World) -> None:
+    """Requests built inline: the caller keeps no reference of its own to the request objects."""
+    import gc
+    ch = w.ch
+    client_async = bool(ch.draw(2, 'client_async'))
+    batch = bool(ch.draw(2, 'batch'))
+    n = 1 + ch.draw(3, 'n') if batch else 1
+    ids = ch.shuffle(ID_POOL, 'ids')[:n]
+    calls = _draw_calls(ch, n)
+    w.scenario = {'client_async': client_async, 'batch': batch, 'ids': ids, 'calls': [c.describe() for c in calls]}
+    w.nontrivial = True
+    st = Stack(w, client_async, bool(ch.draw(2, 'server_async')), client_kwargs={'strict': True})
+    ctx = {'kind': 'inline', 'batch': batch, 'client_async': client_async, 'via': 'send', 'fault': 'none', 'strict': True}
+
+    def build() -> Any:
+        reqs = [pjrpc.Request(c.method, list(c.args) or dict(c.kwargs) or None, i) for c, i in zip(calls, ids)]
+        return pjrpc.BatchRequest(*reqs) if batch else reqs[0]
+
+    try:
+        if batch:
+            b = st.client.batch
+            resp = st.run(lambda: b.send(build()))
+            del b
+            items = list(resp)
+        else:
+            resp = st.run(lambda: st.client.send(build()))
+            items = [resp]
+    except Exception as e:  # noqa: BLE001
+        w.violate('C08.accept', f'an acceptable reply was refused: {type(e).__name__}: {e}', **ctx)
+        return
+    gc.collect()
+    want = {(type(i).__name__, i): c.method for c, i in zip(calls, ids)}
+    for r in items:
+        rel = r.related
+        if rel is None or not RC.same_id(rel.id, r.id) or rel.method != want.get((type(r.id).__name__, r.id)):
+            w.violate('C08.related', f'response {r.id!r} is linked to {rel!r}; every accepted response must stay linked to '
+                      f'the request with the same id (the caller kept no reference of its own)', **ctx)
+            return
+
+
 def systematic_batch(tier: str) -> Iterable[List[int]]:
     """(n_calls x fault kind x strict x client kind x via): every combination of the structural draws."""
     max_n = 3 if tier == 'quick' else 4
@@ -372,11 +449,11 @@ def systematic_single(tier: str) -> Iterable[List[int]]:
                     yield [f, nonstrict, ca, via]
 
 
-FAMILIES = {'match.batch': fam_batch, 'match.single': fam_single, 'match.reuse': fam_reuse}
+FAMILIES = {'match.batch': fam_batch, 'match.single': fam_single, 'match.reuse': fam_reuse, 'match.inline': fam_inline}
 SYSTEMATIC = {'match.batch': systematic_batch, 'match.single': systematic_single}
 PLAN = {
-    'quick': {'match.batch': 80000, 'match.single': 32000, 'match.reuse': 16000},
-    'thorough': {'match.batch': 80000, 'match.single': 30000, 'match.reuse': 30000},
+    'quick': {'match.batch': 80000, 'match.single': 32000, 'match.reuse': 16000, 'match.inline': 10000},
+    'thorough': {'match.batch': 80000, 'match.single': 30000, 'match.reuse': 30000, 'match.inline': 30000},
 }
 THOROUGH_BUDGET_S = 600
 RULE = ('systematic part: every combination of (number of calls, response-fault kind, strict flag, client kind, '
